@@ -383,6 +383,84 @@ def opname_part():
     return cases, viol
 
 
+def inline_name_part():
+    """components whose names equal the names DERIVED for inline types of other components (array item objects and
+    enums, union variants): every entity keeps a definition of its own, nothing is dropped or redirected"""
+    d = vlib.scratch("C09i")
+    S, I = {"type": "string"}, {"type": "integer"}
+    item = {"type": "object", "properties": {"sku": S, "qty": I}}
+    tag = {"type": "string", "enum": ["gift", "fragile", "express"]}
+    specs = []
+    for holder, later in (("Order", ("OrderLine", "OrderTag")), ("Zorder", ("ZorderLine", "ZorderTag")), ("Order", ("OrderLines", "OrderTags"))):
+        # (the component sorts before / after the names derived from it)
+        schemas = {holder: {"type": "object", "properties": {"id": S, "lines": {"type": "array", "items": item}, "tags": {"type": "array", "items": tag}}},
+                   later[0]: {"type": "object", "properties": {"legacy_code": S}}, later[1]: {"type": "object", "properties": {"label": S}}}
+        if holder == "Zorder":
+            schemas = dict(sorted(schemas.items()))
+        specs.append((holder, later, {"openapi": "3.1.0", "info": {"title": "t", "version": "1"}, "paths": {}, "components": {"schemas": schemas}}))
+    viol, cases = [], []
+    for k, (holder, later, spec) in enumerate(specs):
+        cases.append((holder,) + later)
+        sp = os.path.join(d, f"s{k}.json")
+        json.dump(spec, open(sp, "w"))
+        out = os.path.join(d, f"o{k}.rs")
+        rc, txt = vlib.oas(["generate", "types", "-i", sp, "-o", out, "-q", "--all-schemas", "--no-helpers"])
+        dump = vlib.vtool_lines("dump", [out])[0] if rc == 0 else {"error": txt[-200:]}
+        tag_ = f"components {holder} / {later[0]} / {later[1]}"
+        if rc != 0 or "error" in dump:
+            viol.append(((holder,) + later, f"{tag_}: generator failed / output does not parse: rc={rc} {dump.get('error', '')[:200]}"))
+            continue
+        items = {x["name"]: x for x in dump["items"] if x["kind"] in ("struct", "enum")}
+        fields = lambda n: sorted(f["name"] for f in items.get(n, {}).get("fields", []))
+        names = [x["name"] for x in dump["items"] if x["kind"] in ("struct", "enum", "type")]
+        if len(names) != len(set(names)):
+            viol.append(((holder,) + later, f"{tag_}: duplicate item names {sorted(n for n in set(names) if names.count(n) > 1)}"))
+        if fields(later[0]) != ["legacy_code"] or fields(later[1]) != ["label"]:
+            viol.append(((holder,) + later, f"{tag_}: the components are emitted as {later[0]}{fields(later[0])} / {later[1]}{fields(later[1])}, declared members are legacy_code / label"))
+        h = {f["name"]: f["ty"] for f in items.get(holder, {}).get("fields", [])}
+        lt = re.findall(r"[A-Z]\w*", re.sub(r"\b(Option|Vec|Box)\b", "", h.get("lines", "")))
+        tt = re.findall(r"[A-Z]\w*", re.sub(r"\b(Option|Vec|Box)\b", "", h.get("tags", "")))
+        if not lt or fields(lt[0]) != ["qty", "sku"]:
+            viol.append(((holder,) + later, f"{tag_}: {holder}.lines is typed {h.get('lines')!r} whose item type has members {fields(lt[0]) if lt else None}, the inline item declares qty / sku"))
+        if not tt or items.get(tt[0], {}).get("kind") != "enum" or len(items[tt[0]].get("variants", [])) != 3:
+            viol.append(((holder,) + later, f"{tag_}: {holder}.tags is typed {h.get('tags')!r}, the inline item is an enum of three values"))
+    return cases, viol
+
+
+def undeclared_path_part():
+    """template variables that no parameter declares get a synthesized member: the identifier the client uses for it is
+    the member's (legal) name, whatever the spelling of the variable"""
+    d = vlib.scratch("C09p")
+    ok = {"204": {"description": "n"}}
+    paths = {"/orders/{orderId}/items/{item-id}": {"get": {"operationId": "get_order_item", "responses": ok}},
+             "/t/{tenant-id}/u/{User_Name}": {"delete": {"operationId": "drop_user", "parameters": [{"name": "tenant-id", "in": "query", "schema": {"type": "string"}}], "responses": ok}},
+             "/k/{type}/m/{match}": {"get": {"operationId": "get_kw", "responses": ok}},
+             "/d/{declared-one}/{undeclaredTwo}": {"put": {"operationId": "put_mixed", "parameters": [{"name": "declared-one", "in": "path", "required": True, "schema": {"type": "integer"}}], "responses": ok}}}
+    spec = {"openapi": "3.1.0", "info": {"title": "t", "version": "1"}, "paths": paths, "components": {"schemas": {}}}
+    sp = os.path.join(d, "spec.json")
+    json.dump(spec, open(sp, "w"))
+    outp = os.path.join(d, "out")
+    rc, txt = vlib.oas(["generate", "client-mod", "-i", sp, "-o", outp, "-q"])
+    case = ("undeclared-path-variables",)
+    if rc != 0:
+        return [case], [(case, f"undeclared path variables {sorted(paths)}: generator failed rc={rc} {txt.strip()[-200:]}")]
+    dump = vlib.vtool_lines("dump", [os.path.join(outp, "types.rs")])[0]
+    if "error" in dump:
+        return [case], [(case, f"undeclared path variables: types.rs does not parse: {dump['error'][:200]}")]
+    members = {x["name"]: [f["name"] for f in x.get("fields", [])] for x in dump["items"] if x["kind"] == "struct"}
+    ctext = open(os.path.join(outp, "client.rs")).read()
+    viol = []
+    pathfields = sorted(set(f for n, fs in members.items() if n.endswith("RequestPath") for f in fs))
+    used = sorted(set(re.findall(r"request\s*\.\s*path\s*\.\s*((?:r#)?\w+)", ctext)))
+    missing = [u for u in used if u not in pathfields]
+    if missing:
+        viol.append((case, f"undeclared path variables: the client refers to request.path.{missing} but the path structs only have the members {pathfields}"))
+    want_n = sum(len(re.findall(r"\{[^}]+\}", t)) for t in paths)
+    if len([f for n, fs in members.items() if n.endswith("RequestPath") for f in fs]) != want_n or len(used) != want_n:
+        viol.append((case, f"undeclared path variables: {want_n} template variables, path struct members {pathfields}, members used by the client {used}"))
+    return [case], viol
+
+
 def _is_f1(props):
     """the recorded class: two properties share a Rust name b and a third property's Rust name is b_<i>"""
     import subprocess
@@ -421,11 +499,13 @@ def main(tier, seed, replay=None):
     ucases, viol4 = union_part(tier)
     rcases, viol5 = ref_union_part()
     ocases, viol6 = opname_part()
-    viol2 = viol2 + viol3 + viol4 + viol5 + viol6
-    cases = cases + mcases + ucases + rcases + ocases
+    icases, viol7 = inline_name_part()
+    pcases, viol8 = undeclared_path_part()
+    viol2 = viol2 + viol3 + viol4 + viol5 + viol6 + viol7 + viol8
+    cases = cases + mcases + ucases + rcases + ocases + icases + pcases
     res.counts.update({"evaluations": len(names) * 3 + len(cases), "distinct_nontrivial": len(names),
                        "traces_validated_against_impl": len(names) if exe else 0, "scope_cases": len(cases),
-                       "rule": f"every string over the 14-symbol alphabet up to length {3 if tier=='quick' else 5}, every keyword in 4 spellings, a hand list and random Unicode strings through the real sanitisers (compiled by #[path]) and the extracted model; legality of the implementation's results decided by the model's legal_ident; plus collision classes (pairs/triples) placed in struct-field and enum-variant scopes through the CLI; module-level inline type names; unions of inline branches whose titles collide three or four ways or are keywords, with and without helper constructors"})
+                       "rule": f"every string over the 14-symbol alphabet up to length {3 if tier=='quick' else 5}, every keyword in 4 spellings, a hand list and random Unicode strings through the real sanitisers (compiled by #[path]) and the extracted model; legality of the implementation's results decided by the model's legal_ident; plus collision classes (pairs/triples) placed in struct-field and enum-variant scopes through the CLI; module-level inline type names; unions of inline branches whose titles collide three or four ways or are keywords, with and without helper constructors; components named like the names derived for another component's inline array items; undeclared path template variables in camelCase / kebab-case / keyword spellings (the member the client uses exists)"})
     for n in names[1:4] + names[-2:]:
         res.sample({"name": n})
     res.cov["trusted_base"] = vlib.COMMON_TRUSTED + [
